@@ -974,8 +974,12 @@ class RecordLayer(object):
                     continue
                 raise
             # as soon as we're able to decrypt messages again, we must
-            # start checking the MACs
-            self.early_data_ok = False
+            # start checking the MACs (an unprotected TLS 1.3 CCS proves
+            # nothing: neither the tolerance nor what was counted against
+            # max_early_data changes)
+            if not (self._is_tls13_plus() and
+                    header.type == ContentType.change_cipher_spec):
+                self.early_data_ok = False
 
             # TLS 1.3 encrypts the type, CCS and Alerts are not encrypted
             if self._is_tls13_plus() and self._readState and \
